@@ -374,6 +374,45 @@ def _only_noreturn(f, seen):
     return True
 
 
+def check_attr_branch(ck, prog):
+    """The full permission bits of the source (st_mode & 0777) may be copied only if the target has the source's group:
+    either the gids were equal or fchown(dest, -1, src_gid) SUCCEEDED.  From the failure edge of that fchown() the
+    unrestricted store must be unreachable, whatever else is tested on the way (a `&& warn_fchown` added to silence the
+    warning also switches the restricted mode off for every non-root user)."""
+    f = prog.fn("io_copy_attrs", "file_io.c", target="xz")
+    ck.saw_function(f)
+    grp = None
+    for b in f.blocks.values():
+        if b.term and "cond" in b.term and len(b.succs) == 2:
+            for c in ex.calls(b.term["cond"]):
+                if c.get("fn") == "fchown" and len(c["args"]) == 3 and "st_gid" in ex.show(c["args"][2]):
+                    grp = b
+    if grp is None:
+        raise AnalysisBroken("io_copy_attrs: fchown(dest_fd, -1, src gid) test not found")
+    full = [b.id for b, i, e in f.iter_elems() for (l, r, op, nd) in ex.writes(e)
+            if ex.show(l) == "mode" and r is not None and ex.strip(r).get("k") == "bin" and ex.strip(r)["op"] == "&"
+            and ex.const_val(ex.strip(r)["r"]) == 0o777 and "st_mode" in ex.show(ex.strip(r)["l"])
+            and ex.strip(ex.strip(r)["l"]).get("k") == "mem"]
+    if not full:
+        raise AnalysisBroken("io_copy_attrs: the unrestricted `mode = st_mode & 0777` store was not found")
+    seen, st, hit = set(), [grp.succs[0]], False      # fchown() != 0  =>  failed
+    while st:
+        x = st.pop()
+        if x in seen or x is None:
+            continue
+        seen.add(x)
+        if x in full:
+            hit = True
+            break
+        st.extend(y for y in f.blocks[x].succs if y is not None)
+    ck.ob("C19-ATTR", "full-mode-needs-group", not hit, common.where(f, grp.term["cond"]),
+          "io_copy_attrs: after a failed fchown(group) the unrestricted mode is unreachable" if not hit else
+          "io_copy_attrs(): `mode = st_mode & 0777` is reachable after fchown(dest, -1, src gid) FAILED (an additional test "
+          "sits between the failure and the restricted branch): the target keeps its own group but gets the source's group "
+          "bits, so members of that group -- or everybody, via the other bits -- can read a file they could not read before",
+          key="ATTR:full-mode-needs-group")
+
+
 def run(ck):
     ck.explanation = (
         "Table agreement between the compress and decompress suffix tables; finite-domain evaluation of "
@@ -387,4 +426,5 @@ def run(ck):
     check_suffix_boundary(ck, prog)
     check_src(ck, prog)
     check_attr(ck, prog)
+    check_attr_branch(ck, prog)
     check_keep(ck, prog)
